@@ -21,6 +21,7 @@ func checkC12(c *Ctx) {
 	c.Rule("C12/R4", "the beta/t path works in the log domain: nothing reachable from the t distribution's CDF/PDF calls math.Gamma (which overflows for the degrees of freedom large samples produce)")
 
 	c.Rule("C12/R5", "returned functions are re-entrant: no closure created in internal/stats writes a variable it captured (an inverse CDF that keeps its bracketing step between calls drifts to ±Inf after enough calls)")
+	c.Rule("C12/R7", "the geometric means accumulate in the log domain: no loop-carried value in stats.GeoMean / Sample.GeoMean is multiplied by a raw data element on each iteration")
 	c.Rule("C12/R6", "no 0/0 variance: every division by len(x)-1 in internal/stats is reached only when len(x) >= 2 (a singleton's variance is 0, which the t-tests' zero-variance guard turns into an error; NaN would slip through it)")
 	p := mustLoad(c, loadOpts{}, "./internal/stats")
 	p.Funcs("internal/stats")
@@ -31,6 +32,76 @@ func checkC12(c *Ctx) {
 	c12LogDomain(c, p)
 	c12Closures(c, p)
 	c12LenMinusOne(c, p)
+	c12GeoMean(c, p, "C12/R7")
+}
+
+// c12GeoMean: the geometric mean accumulates in the log domain. A loop-carried float that is multiplied by a raw element
+// of the data on every iteration is a running product: it overflows or underflows for a few hundred values of large or
+// small magnitude (and a product folded into the log domain only when it grows large still underflows).
+func c12GeoMean(c *Ctx, p *Prog, R string) {
+	n := 0
+	for _, fn := range p.Funcs("internal/stats") {
+		if fn.Name() != "GeoMean" {
+			continue
+		}
+		for li, lp := range naturalLoops(fn) {
+			n++
+			key := fmt.Sprintf("%s:loop#%d:log-domain", fnName(fn), li+1)
+			bad := ""
+			for _, in := range lp.Header.Instrs {
+				phi, ok := in.(*ssa.Phi)
+				if !ok || !isFloat(phi.Type()) {
+					continue
+				}
+				for b := range lp.Blocks {
+					for _, in2 := range b.Instrs {
+						bo, ok := in2.(*ssa.BinOp)
+						if !ok || bo.Op != token.MUL {
+							continue
+						}
+						var other ssa.Value
+						switch {
+						case bo.X == ssa.Value(phi):
+							other = bo.Y
+						case bo.Y == ssa.Value(phi):
+							other = bo.X
+						default:
+							continue
+						}
+						if rawElement(other, 0) {
+							bad = p.pos(bo.Pos())
+						}
+					}
+				}
+			}
+			c.Check(bad == "", R, key, p.pos(fn.Pos()), "no running product of raw values", "a loop-carried value is multiplied by a raw element of the data on every iteration (at "+bad+"): the running product leaves the float64 range for a few hundred values of large or small magnitude (e.g. 120 values of 1e-5 give 0), which accumulating logarithms avoids")
+		}
+	}
+	c.Floor(R, "loops of the geometric means", n, 2)
+}
+
+// rawElement: v is an element of a slice (or the range value over one), possibly converted or combined arithmetically,
+// without having passed through a call (math.Log, math.Frexp, ...).
+func rawElement(v ssa.Value, depth int) bool {
+	if depth > 6 {
+		return false
+	}
+	switch x := v.(type) {
+	case *ssa.UnOp:
+		if x.Op == token.MUL {
+			_, ok := x.X.(*ssa.IndexAddr)
+			return ok
+		}
+		return rawElement(x.X, depth+1)
+	case *ssa.Extract:
+		_, ok := x.Tuple.(*ssa.Next)
+		return ok
+	case *ssa.Convert:
+		return rawElement(x.X, depth+1)
+	case *ssa.BinOp:
+		return rawElement(x.X, depth+1) || rawElement(x.Y, depth+1)
+	}
+	return false
 }
 
 // ufEval evaluates a symbolic float expression with every non-arithmetic call as an uninterpreted function of its
@@ -341,6 +412,66 @@ func c12TTests(c *Ctx, p *Prog) {
 				c.Check(okT, "C12/R2", "PairedTTest:t", site, "t = (mean(diff) - mu0)·sqrt(n)/sd(diff)", "paired t statistic: "+dT)
 			}
 		}
+		// the differences themselves: every float stored into a local buffer inside a loop of PairedTTest is x1[i] - x2[i]
+		// (the hypothesised mean is subtracted once, in the statistic)
+		nDiff := 0
+		for _, lp := range naturalLoops(fn) {
+			for b := range lp.Blocks {
+				for _, in := range b.Instrs {
+					st, ok := in.(*ssa.Store)
+					if !ok || !isFloat(st.Val.Type()) || !localBuffer(st.Addr) {
+						continue
+					}
+					nDiff++
+					var idx ssa.Value
+					sameIdx := true
+					leaf := func(v ssa.Value) (string, bool) {
+						if prm, ok := v.(*ssa.Parameter); ok && isFloat(prm.Type()) {
+							return "mu0", true
+						}
+						ld, ok := v.(*ssa.UnOp)
+						if !ok || ld.Op != token.MUL {
+							return "", false
+						}
+						ia, ok := ld.X.(*ssa.IndexAddr)
+						if !ok {
+							return "", false
+						}
+						if idx == nil {
+							idx = ia.Index
+						} else if idx != ia.Index {
+							sameIdx = false
+						}
+						switch ia.X {
+						case fn.Params[0]:
+							return "a", true
+						case fn.Params[1]:
+							return "b", true
+						}
+						return "", false
+					}
+					ok2, why := true, ""
+					for _, pt := range []map[string]*big.Rat{{"a": rat(7, 3), "b": rat(2, 5), "mu0": rat(1, 3)}, {"a": rat(-4, 1), "b": rat(9, 2), "mu0": rat(-5, 7)}} {
+						got, err := ratOfValue(st.Val, leaf, pt)
+						if err != "" {
+							ok2, why = false, "cannot evaluate the stored difference: "+err
+							break
+						}
+						if want := rSub(pt["a"], pt["b"]); got.Cmp(want) != 0 {
+							gf, _ := got.Float64()
+							wf, _ := want.Float64()
+							ok2, why = false, fmt.Sprintf("at x1[i]=%s x2[i]=%s mu0=%s the stored difference is %.6g, x1[i]-x2[i] is %.6g: the statistic subtracts the hypothesised mean from the mean of the differences, so a difference that is already shifted makes every test with mu0 != 0 wrong", pt["a"].RatString(), pt["b"].RatString(), pt["mu0"].RatString(), gf, wf)
+							break
+						}
+					}
+					if ok2 && !sameIdx {
+						ok2, why = false, "the two observations of a difference are read at different indices"
+					}
+					c.Check(ok2, "C12/R2", fmt.Sprintf("PairedTTest:difference#%d", nDiff), p.pos(st.Pos()), "each difference is x1[i] - x2[i]", why)
+				}
+			}
+		}
+		c.Floor("C12/R2", "stores of paired differences", nDiff, 1)
 		// guards
 		mism, size, zero := false, false, false
 		for _, b := range fn.Blocks {
@@ -963,4 +1094,84 @@ func c12LenMinusOne(c *Ctx, p *Prog) {
 // are evaluated in place; methods (distributions' CDF etc.) stay symbolic.
 func c12InlineHelper(f *ssa.Function) bool {
 	return f.Pkg != nil && f.Pkg.Pkg.Path() == modPath+"/internal/stats" && f.Signature.Recv() == nil && f.Parent() == nil && len(naturalLoops(f)) == 0 && len(f.Blocks) <= 12 && !strings.HasPrefix(f.Name(), "math")
+}
+
+// localBuffer: addr is an element of a slice or array created in this function (make, array literal or new).
+func localBuffer(addr ssa.Value) bool {
+	for i := 0; i < 8; i++ {
+		switch x := addr.(type) {
+		case *ssa.IndexAddr:
+			addr = x.X
+		case *ssa.Slice:
+			addr = x.X
+		case *ssa.MakeSlice, *ssa.Alloc:
+			return true
+		case *ssa.Phi:
+			// a buffer grown by append in the loop: any edge that is a fresh buffer
+			for _, e := range x.Edges {
+				if _, ok := e.(*ssa.MakeSlice); ok {
+					return true
+				}
+			}
+			return false
+		default:
+			return false
+		}
+	}
+	return false
+}
+
+// ratOfValue evaluates an arithmetic SSA expression tree exactly over the rationals; leaf names the operands that are inputs.
+func ratOfValue(v ssa.Value, leaf func(ssa.Value) (string, bool), pt map[string]*big.Rat) (*big.Rat, string) {
+	if n, ok := leaf(v); ok {
+		if r, ok := pt[n]; ok {
+			return r, ""
+		}
+		return nil, "no value for " + n
+	}
+	switch x := v.(type) {
+	case *ssa.Const:
+		if x.Value == nil {
+			return nil, "nil constant"
+		}
+		if r, ok := new(big.Rat).SetString(x.Value.ExactString()); ok {
+			return r, ""
+		}
+		return nil, "constant " + x.Value.String()
+	case *ssa.Convert:
+		return ratOfValue(x.X, leaf, pt)
+	case *ssa.ChangeType:
+		return ratOfValue(x.X, leaf, pt)
+	case *ssa.UnOp:
+		if x.Op == token.SUB {
+			r, err := ratOfValue(x.X, leaf, pt)
+			if err != "" {
+				return nil, err
+			}
+			return new(big.Rat).Neg(r), ""
+		}
+	case *ssa.BinOp:
+		a, err := ratOfValue(x.X, leaf, pt)
+		if err != "" {
+			return nil, err
+		}
+		b, err := ratOfValue(x.Y, leaf, pt)
+		if err != "" {
+			return nil, err
+		}
+		switch x.Op {
+		case token.ADD:
+			return rAdd(a, b), ""
+		case token.SUB:
+			return rSub(a, b), ""
+		case token.MUL:
+			return rMul(a, b), ""
+		case token.QUO:
+			if b.Sign() == 0 {
+				return nil, "division by zero"
+			}
+			return rQuo(a, b), ""
+		}
+	}
+	return nil, "operand " + v.Name() + " (" + v.String() + ") is not an arithmetic expression of the inputs"
 }
